@@ -175,8 +175,9 @@ def interpret(unit, g, raw, off, path):
         fn = sfn or cfn
         tags = set(cmeta['tags'])
         finfo = g.functions.get(fn or '', {})
-        if not tags:
-            tags = set(finfo.get('props', []))
+        if not tags or 'post-condition of closure' in msg:
+            # a closure's `ensures` is contract text inserted by a rewrite into a body line: it belongs to the function's properties
+            tags = set(finfo.get('props', [])) | (tags if 'post-condition of closure' in msg else set())
         res['failures'].append({
             'function': fn, 'kind': msg, 'clause': ctext[:300], 'clause_origin': cmeta['origin'],
             'site': stext[:300], 'site_origin': smeta['origin'], 'tags': sorted(tags), 'site_line': max(sk, ck) if sfn == cfn else sk,
